@@ -11,6 +11,8 @@ R06.4 lifting keeps values        : each popped value is pushed to the output or
       `unique()` only; variable assignment registers every value.
 R06.5 keys become slots           : the storage-slot pass has arms for both StorageWrite and SLoad whose rebuilt node carries a
       StorageSlot key on every path.
+R06.7 constants stay constants    : a lifting pass replaces a node that is a constant only by the Sha3 of a slot number found by
+      an exact look-up of that constant in the hash table (the exception the property names).
 R06.6 full-width index            : the row index handed to the layout is a 256-bit word type and its conversion contains no
       narrowing; the constant-slot filter accepts every StorageSlot with a KnownData key; a packed type with no spans still
       yields a row.
@@ -362,6 +364,64 @@ def check_r066(fx, rep):
             rep.oblige(safe, "R06.6", "empty-packed-still-a-row", F.loc(n["span"]), "a slot whose packed type has no spans is returned as an empty list of entries: the layout builder then adds no row for that slot", sample={"rule": "R06.6", "guard": "pairs.is_empty() => Any"})
 
 
+def check_r067(fx, rep):
+    """A lifting pass may replace a node that *is* a constant by an expression only in the one documented case: the constant
+    is exactly the hash of a small slot number (looked up, unmodified, in the table of pre-computed hashes) and becomes the
+    Sha3 of that number. Any other constant-to-expression rewrite turns a literal key into a non-literal one and loses its row."""
+    n = 0
+    for b in fx.fn_bodies():
+        if not (b["def"].startswith("<tc::lift::") or b["def"].startswith("tc::lift::")) or not b.get("hir"):
+            continue
+        root = b["hir"]["value"]
+        units = [(root, b["hir"]["params"])]
+        for c, ps in F.exprs(root, "Closure"):
+            units.append((c["body"], c.get("params", [])))
+        for body, params in units:
+            plids = {p.get("local") for p in params if p.get("p") == "Bind"}
+            consts = []  # locals bound to the value of the constant the unit received
+            for m, ps in F.walk(body):
+                if m.get("s") == "Let" and "els" in m and (F.pat_variants(m["pat"]) or set()) == {(SVD, "KnownData")} and F.local_of(F.strip(m["init"])) in plids:
+                    consts += list(F.pat_bindings(m["pat"]))
+                if m.get("k") == "Match" and F.local_of(F.strip(m["scrut"])) in plids:
+                    for a in m["arms"]:
+                        if (F.pat_variants(a["pat"]) or set()) == {(SVD, "KnownData")}:
+                            consts += list(F.pat_bindings(a["pat"]))
+            if not consts:
+                continue
+            mutated = T.mutated_locals(body)
+            for st, sps in F.walk(body):
+                if st.get("k") != "Struct" or st.get("adt") != SVD or st.get("variant") == "KnownData":
+                    continue
+                # only productions in result position of the unit (wrapped in Some(..)), not pieces of the constant's own tree
+                n += 1
+                rep.fn(b["def"])
+                w = F.loc(st["span"])
+                exact = False
+                for anc, key in sps:
+                    cond = anc.get("cond") if anc.get("k") == "If" and key == "then" else None
+                    if cond is None or cond.get("k") != "Let":
+                        continue
+                    call = F.strip(cond["init"])
+                    if call.get("k") == "MethodCall" and call["method"] in ("get_by_left", "get_by_right", "get") and call["args"]:
+                        t = T.term(call["args"][0], T.env_at(sps, st, mutated), mutated)
+                        while t[0] == "call" and isinstance(t[1], str) and F.strip_generics(t[1]).split("::")[-1] in ("value_le", "value", "clone") and t[2]:
+                            t = t[2][0]
+                        if t[0] == "local" and t[1] in consts:
+                            exact = True
+                ok = st.get("variant") == "Sha3" and exact
+                rep.oblige(
+                    ok,
+                    "R06.7",
+                    f"constant-rewrite:{F.strip_generics(b['def'])}:{st.get('variant')}",
+                    w,
+                    f"`{b['def']}` replaces a constant by a `{st.get('variant')}` expression"
+                    + ("" if exact else " without an exact look-up of that constant in the table of slot-number hashes")
+                    + ": a literal storage key of that form is no longer a constant and its layout row is lost",
+                    sample={"rule": "R06.7", "fn": b["def"], "produces": st.get("variant"), "exact_lookup": exact, "at": w},
+                )
+    rep.floor("R06.7", n, 1, "constant-to-expression rewrites in the lifting passes")
+
+
 def check(fx, rep, tier):
     cg = F.CallGraph(fx)
     check_r061(fx, rep)
@@ -370,9 +430,10 @@ def check(fx, rep, tier):
     check_r064(fx, rep)
     check_r065(fx, rep)
     check_r066(fx, rep)
+    check_r067(fx, rep)
     return rep.finish(
         "Must-flow / append-only audit of the chain executed access -> generation -> stored state -> exported StorageWrite -> lifted value -> registered value -> StorageSlot key -> layout row, "
         "with the row index carried as a 256-bit type and no dropping adaptor, conditional or narrowing on any link.",
         "instances = history mutations, thread/state drops, export adaptors, lift/register flows, storage-slot arms, index types and conversions; enumerated from the crate",
-        ["that no lifting pass rewrites a literal key into a non-literal, and that type resolution of the row succeeds, are not decided"],
+        ["that type resolution of the row succeeds is not decided; key rewrites are decided only for passes that replace a node that is itself a constant (R06.7)"],
     )
